@@ -16,7 +16,7 @@ let bs x = if x then "#t" else "#f"
 let len l = List.length l
 let pmod a m = ((a mod m) + m) mod m
 
-type value = L of z list | P of (z * z) list | T of tree | D of z dq | R of z ralist
+type value = L of z list | P of (z * z) list | T of tree | D of z dq | R of z ralist | M of rbt
 type res = V of value | Q of string
 (* the model's tree of an iset, printed like harness/c18_hist.scm iset-shape *)
 let rec shape = function
@@ -61,7 +61,27 @@ let ra_marks (v : z ralist) =
   ^ mark (match ra_map3 (fun x y z -> zplus x (zplus y z)) c v m with Some r -> ra_flat r = List.map (fun x -> zplus x x) l | None -> false) "!map3"
   ^ mark (ra_for_each2 zplus v m = Some l) "!foreach2"
   ^ mark (List.for_all (fun i -> ra_list_ref v (ni i) = Some (List.nth l i)) (List.init (min n 40) (fun i -> i))) "!ref"
+(* SRFI 146 mapping inside the model (coq/C18/RBTree.v): the tree printed like harness/c18_hist.scm rb-shape; the marks apply the
+   model's own observers to the model's own listing (theorems of RBContent.v: never printed) *)
+let rec rb_shape = function
+  | Lf Black -> "B" | Lf White -> "W" | Lf Red -> "R"
+  | Nd (c, l, (k, v), r) ->
+    "(" ^ (match c with Red -> "r" | Black -> "b" | White -> "w") ^ " " ^ s_int k ^ ":" ^ s_int v ^ " " ^ rb_shape l ^ " " ^ rb_shape r ^ ")"
+let rec rb_bh = function          (* like harness/c18_hist.scm rb-bh *)
+  | Lf Black -> Some 0 | Lf _ -> None
+  | Nd (White, _, _, _) -> None
+  | Nd (c, l, _, r) ->
+    let col = function Lf c -> c | Nd (c, _, _, _) -> c in
+    (match rb_bh l, rb_bh r with
+     | Some hl, Some hr when hl = hr && (c = Black || (col l = Black && col r = Black)) -> Some (if c = Black then hl + 1 else hl)
+     | _ -> None)
+let rb_marks m =
+  let l = some (mapping_to_alist m) in
+  mark ((match m with Lf Black | Nd (Black, _, _, _) -> true | _ -> false) && rb_bh m <> None) "!rbinv"
+  ^ mark (iz (some (mapping_size m)) = List.length l) "!s"
+  ^ String.concat "" (List.map (fun (k, v) -> mark (mapping_ref m k = Some (Some v)) ("!r" ^ s_int k)) l)
 let dump = function L l -> dump_list l | P l -> dump_alist l | T t -> shape t ^ "/" ^ dump_list (to_list t)
+                    | M m -> "(rb " ^ rb_shape m ^ ")/" ^ dump_alist (some (mapping_to_alist m)) ^ rb_marks m
                     | D d -> dq_shape d ^ "/" ^ dump_list (dq_to_list d) ^ dq_marks d
                     | R v -> "(" ^ String.concat " " (List.map (fun s -> string_of_int (ion s)) (ra_sizes v)) ^ ")/" ^ dump_list (ra_listing v) ^ ra_marks v
 let gl = function L l -> l | _ -> failwith "expected a list version"
@@ -69,6 +89,7 @@ let gp = function P l -> l | _ -> failwith "expected an alist version"
 let gt = function T t -> t | _ -> failwith "expected a tree version"
 let gd = function D d -> d | _ -> failwith "expected a deque version"
 let gr = function R r -> r | _ -> failwith "expected a random-access list version"
+let gm = function M m -> m | _ -> failwith "expected a mapping version"
 let iota n x = List.init n (fun i -> zi (x + i))
 (* the predicate (k, t) of harness/c18_hist.scm pred-of *)
 let pred k t : z -> bool = fun y ->
@@ -176,6 +197,8 @@ let isett_step op (a : int array) (vs : value array) : res =
   | "adjoin2" -> vt (adjoin_list (v 0) [x 1; x 2])
   | "delete" | "deletex" -> vt (delete1 (v 0) (x 1))
   | "union" | "unionx" -> vt (union2 (v 0) (v 1))
+  | "inter" | "interx" -> vt (some (intersection2 (v 0) (v 1)))
+  | "diff" | "diffx" -> vt (some (difference2 (v 0) (v 1)))
   | "copy" -> vt (v 0)
   | "oflist" -> vt (adjoin_list make_iset0 [x 0; x 1; x 2])
   | "has" -> Q (bs (contains (v 0) (x 1)))
@@ -231,6 +254,31 @@ let bag_step op a vs =
   | "has" -> Q (bs (iz (bag_count (x 1) (v 0)) > 0))
   | "empty" -> Q (bs (v 0 = []))
   | _ -> failwith ("unknown bag op " ^ op)
+
+(* SRFI 146 mappings: the versions are the model's red-black trees (coq/C18/RBTree.v), one model call per operation *)
+let rbmap_step op (a : int array) (vs : value array) : res =
+  let v k = gm vs.(a.(k)) and x k = zi a.(k) in
+  let vm o = V (M (some o)) in
+  match op with
+  | "set" | "setx" -> vm (mapping_set (v 0) (x 1) (x 2))
+  | "adjoin" -> vm (mapping_adjoin (v 0) (x 1) (x 2))
+  | "replace" -> vm (mapping_replace (v 0) (x 1) (x 2))
+  | "delete" -> vm (mapping_delete (v 0) (x 1))
+  | "delete2" -> vm (mapping_delete_all (v 0) [x 1; x 2])
+  | "bump" -> vm (mapping_update (v 0) (x 1) (fun y -> zi (iz y + 1)) (x 2))
+  | "union" -> vm (mapping_union (v 0) (v 1))
+  | "inter" -> vm (mapping_intersection (v 0) (v 1))
+  | "diff" -> vm (mapping_difference (v 0) (v 1))
+  | "xor" -> vm (mapping_xor (v 0) (v 1))
+  | "filter" -> vm (mapping_filter (fun k _ -> Some (pmod (iz k) a.(1) = 0)) (v 0))
+  | "copy" -> V (M (v 0))
+  | "ref" -> Q (match some (mapping_ref (v 0) (x 1)) with Some r -> s_int r | None -> "-")
+  | "has" -> Q (bs (some (mapping_contains (v 0) (x 1))))
+  | "size" -> Q (s_int (some (mapping_size (v 0))))
+  | "sumv" -> Q (s_int (some (tree_fold (fun _ v acc -> zplus v acc) (zi 0) (v 0))))
+  | "keys" -> Q (dump_list (some (mapping_keys (v 0))))
+  | "empty" -> Q (bs (some (mapping_empty (v 0))))
+  | _ -> failwith ("unknown map op " ^ op)
 
 let map_step op a vs =
   let v k = gp vs.(a.(k)) and x k = zi a.(k) in
@@ -367,7 +415,7 @@ let parse_op tok =
 
 let run_hist fam toks =
   let prog = List.map parse_op toks in
-  let empty = match fam with "bag" | "map" | "hmap" | "omap" -> P [] | "isett" -> T make_iset0 | "deque" -> D dq_empty | "ra" -> R [] | _ -> L [] in
+  let empty = match fam with "bag" | "mapo" | "hmap" | "omap" -> P [] | "isett" -> T make_iset0 | "map" -> M make_tree | "deque" -> D dq_empty | "ra" -> R [] | _ -> L [] in
   let vs = Array.make (List.length prog + 1) empty in
   let n = ref 1 in
   let buf = Buffer.create 1024 in
@@ -375,7 +423,8 @@ let run_hist fam toks =
     | "set" | "iset" -> set_step
     | "isett" -> isett_step
     | "bag" -> bag_step
-    | "map" | "hmap" | "omap" -> map_step
+    | "map" -> rbmap_step
+    | "mapo" | "hmap" | "omap" -> map_step
     | "deque" -> deque_step
     | "ra" -> ra_step
     | "dequeo" -> seq_step "deque"
@@ -391,26 +440,89 @@ let run_hist fam toks =
   for i = 0 to !n - 1 do Buffer.add_string buf (dump vs.(i)) done;
   Buffer.contents buf
 
-(* SRFI 117: three mutable queues *)
+(* SRFI 117 inside the model (coq/C18/LQueue.v): three mutable queues = three (first, last) records over ONE heap of pairs
+   (store-passing); one model command per operation.  After every operation the three listings are printed, with a mark when
+   the model's own invariant check (last = last-pair of first) or an observer disagrees with the listing (theorems
+   lq_mutators_keep_invariant_and_refine_lists / lq_observers_refine_lists: never printed). *)
+let lq_unit st c = match lqs_run c st with Some (st', _) -> st' | None -> failwith "the list-queue model reports an error (a Scheme error on this input)"
+let lq_ask st c = match lqs_run c st with Some (_, r) -> r | None -> failwith "the list-queue model reports an error (a Scheme error on this input)"
+let lq_listing st k = match lq_ask st (CList (ni k)) with RList l -> l | _ -> failwith "CList"
+let lq_dump_all st =
+  String.concat "" (List.map (fun k ->
+      let l = lq_listing st k in
+      dump_list l
+      ^ mark (lq_ask st (CWf (ni k)) = RBool true) ("!last" ^ string_of_int k)
+      ^ mark (lq_ask st (CEmptyP (ni k)) = RBool (l = [])) ("!empty" ^ string_of_int k)
+      ^ (if l = [] then "" else
+           mark (lq_ask st (CFront (ni k)) = RInt (List.hd l)) ("!front" ^ string_of_int k)
+           ^ mark (Some (match lq_ask st (CBack (ni k)) with RInt z -> z | _ -> zi 0) = last_of l) ("!back" ^ string_of_int k))
+      ^ mark (lq_ask st (CForEach (ni k)) = RList l) ("!foreach" ^ string_of_int k)) [0; 1; 2])
 let run_lq toks =
+  let prog = List.map parse_op toks in
+  let st = ref lqs_init in
+  let buf = Buffer.create 1024 in
+  List.iter (fun (op, a) ->
+      let s = a.(0) in
+      let x k = zi a.(k) in
+      let empty k = lq_listing !st k = [] in
+      let cmd c = st := lq_unit !st c; "" in
+      let pop c = (match lqs_run c !st with
+          | Some (st', RInt z) -> st := st'; s_int z
+          | _ -> failwith "the list-queue model reports an error (a Scheme error on this input)") in
+      let ans = match op with
+        | "addf" -> cmd (CAddFront (ni s, x 1))
+        | "addb" -> cmd (CAddBack (ni s, x 1))
+        | "remf" -> if empty s then "-" else pop (CRemoveFront (ni s))
+        | "remb" -> if empty s then "-" else pop (CRemoveBack (ni s))
+        | "copy" -> cmd (CCopy (ni s, ni a.(1)))
+        | "append" -> cmd (CConcat (ni s, [ni a.(1); ni a.(2)]))
+        | "concat" -> cmd (CConcat (ni s, [ni a.(1); ni a.(2); ni a.(1)]))
+        | "appendx" -> cmd (CAppendBang (ni s, [ni a.(1); ni a.(2)]))
+        | "setlist" -> cmd (CSetListNew (ni s, [x 1; x 2; x 3]))
+        | "removeall" -> (match lqs_run (CRemoveAll (ni s)) !st with
+            | Some (st', RList l) -> st := st'; dump_list l
+            | _ -> failwith "the list-queue model reports an error (a Scheme error on this input)")
+        | "map1x" -> cmd (CMapBang (ni s, zi 1, zi 1))
+        | "map1" -> cmd (CMap (ni s, ni a.(1), zi 1, zi 1))
+        (* (list-queue-unfold (lambda (i) (>= i n)) (lambda (i) (+ i x)) (lambda (i) (+ i 1)) 0 [queue]) with n = a1 mod 12 *)
+        | "unf" -> cmd (CUnfold (ni s, false, zi 0, zi (pmod a.(1) 12), zi 1, x 2))
+        | "unfq" -> cmd (CUnfold (ni s, true, zi 0, zi (pmod a.(1) 12), zi 1, x 2))
+        | "unfr" -> cmd (CUnfoldRight (ni s, false, zi 0, zi (pmod a.(1) 12), zi 1, x 2))
+        | "unfrq" -> cmd (CUnfoldRight (ni s, true, zi 0, zi (pmod a.(1) 12), zi 1, x 2))
+        | "front" -> if empty s then "-" else (match lq_ask !st (CFront (ni s)) with RInt z -> s_int z | _ -> "?")
+        | "back" -> if empty s then "-" else (match lq_ask !st (CBack (ni s)) with RInt z -> s_int z | _ -> "?")
+        | "empty" -> (match lq_ask !st (CEmptyP (ni s)) with RBool b -> bs b | _ -> "?")
+        | _ -> failwith ("unknown lq op " ^ op) in
+      Buffer.add_string buf ans;
+      Buffer.add_string buf (lq_dump_all !st);
+      Buffer.add_char buf ';') prog;
+  Buffer.contents buf
+
+(* SRFI 117 on the abstract list oracle (family lqo): the right-hand sides of the refinement theorems *)
+let run_lq_oracle toks =
   let prog = List.map parse_op toks in
   let qs = Array.make 3 [] in
   let buf = Buffer.create 1024 in
   List.iter (fun (op, a) ->
       let s = a.(0) in
       let x k = zi a.(k) in
+      let unf k = iota (pmod a.(1) 12) a.(k) in
       let ans = match op with
         | "addf" -> qs.(s) <- x 1 :: qs.(s); ""
         | "addb" -> qs.(s) <- seq_add_back qs.(s) (x 1); ""
         | "remf" -> if qs.(s) = [] then "-" else (let h = List.hd qs.(s) in qs.(s) <- seq_remove_front qs.(s); s_int h)
         | "remb" -> if qs.(s) = [] then "-" else (let h = seq_back qs.(s) in qs.(s) <- seq_remove_back qs.(s); s_int h)
         | "copy" -> qs.(s) <- qs.(a.(1)); ""
-        | "append" -> qs.(s) <- qs.(a.(1)) @ qs.(a.(2)); ""
+        | "append" | "appendx" -> qs.(s) <- qs.(a.(1)) @ qs.(a.(2)); ""
         | "concat" -> qs.(s) <- qs.(a.(1)) @ qs.(a.(2)) @ qs.(a.(1)); ""
         | "setlist" -> qs.(s) <- [x 1; x 2; x 3]; ""
         | "removeall" -> let l = qs.(s) in qs.(s) <- []; dump_list l
         | "map1x" -> qs.(s) <- seq_map1 qs.(s); ""
         | "map1" -> qs.(s) <- seq_map1 qs.(a.(1)); ""
+        | "unf" -> qs.(s) <- unf 2; ""
+        | "unfq" -> qs.(s) <- unf 2 @ qs.(s); ""
+        | "unfr" -> qs.(s) <- List.rev (unf 2); ""
+        | "unfrq" -> qs.(s) <- qs.(s) @ List.rev (unf 2); ""
         | "front" -> if qs.(s) = [] then "-" else s_int (List.hd qs.(s))
         | "back" -> if qs.(s) = [] then "-" else s_int (seq_back qs.(s))
         | "empty" -> bs (qs.(s) = [])
@@ -432,6 +544,7 @@ let handle = function
   | ["select"; k; i] -> hex_of_z (spec_select (zlist_of_string k) (nat_of_int (int_of_string i)))
   | ["dedup"; k] -> zl (spec_dedup (zlist_of_string k))
   | "hist" :: "lq" :: toks -> run_lq toks
+  | "hist" :: "lqo" :: toks -> run_lq_oracle toks
   | "hist" :: fam :: toks -> run_hist fam toks
   | f -> "ERR unknown request " ^ String.concat " " f
 
